@@ -87,6 +87,81 @@ func registerNatives2(e *Engine) {
 		return ByteArr{BO: d.BO}
 	}
 
+	// ---- strings.Builder: the accumulated bytes are ghost state of the builder ----
+	sbBytes := func(ex *Exec, v Value) (*Obj, Bytes) {
+		p, ok := v.(Ptr)
+		if !ok || p.Obj == nil {
+			ex.nilDeref("strings.Builder method on nil pointer")
+		}
+		if p.Obj.Ghost == nil {
+			p.Obj.Ghost = map[string]Value{}
+		}
+		b, _ := p.Obj.Ghost["builder"].(Bytes)
+		return p.Obj, b
+	}
+	n["(*strings.Builder).WriteString"] = func(ex *Exec, site ssa.Instruction, args []Value) Value {
+		o, b := sbBytes(ex, args[0])
+		o.Ghost["builder"] = ex.appendBuiltin(b, args[1], nil)
+		return Tuple{ex.strLen(args[1].(*Str)), (*Iface)(nil)}
+	}
+	n["(*strings.Builder).Write"] = func(ex *Exec, site ssa.Instruction, args []Value) Value {
+		o, b := sbBytes(ex, args[0])
+		o.Ghost["builder"] = ex.appendBuiltin(b, args[1], nil)
+		return Tuple{args[1].(Bytes).lenOrZero(ex), (*Iface)(nil)}
+	}
+	n["(*strings.Builder).WriteByte"] = func(ex *Exec, site ssa.Instruction, args []Value) Value {
+		o, b := sbBytes(ex, args[0])
+		one := ex.newByteObjZero(ex.c64(1))
+		ex.storeByte(one, ex.c64(0), ex.term(args[1]))
+		o.Ghost["builder"] = ex.appendBuiltin(b, Bytes{BO: one, Off: ex.c64(0), Len: ex.c64(1), Cap: ex.c64(1)}, nil)
+		return (*Iface)(nil)
+	}
+	n["(*strings.Builder).String"] = func(ex *Exec, site ssa.Instruction, args []Value) Value {
+		_, b := sbBytes(ex, args[0])
+		return ex.bytesToStr(b)
+	}
+	n["(*strings.Builder).Len"] = func(ex *Exec, site ssa.Instruction, args []Value) Value {
+		_, b := sbBytes(ex, args[0])
+		return b.lenOrZero(ex)
+	}
+	n["(*strings.Builder).Reset"] = func(ex *Exec, site ssa.Instruction, args []Value) Value {
+		o, _ := sbBytes(ex, args[0])
+		o.Ghost["builder"] = Bytes{}
+		return nil
+	}
+	n["(*strings.Builder).Grow"] = func(ex *Exec, site ssa.Instruction, args []Value) Value { return nil }
+
+	// ---- sync/atomic on integers (single-threaded execution) ----
+	for _, ty := range []string{"Int32", "Int64", "Uint32", "Uint64", "Uintptr"} {
+		n["sync/atomic.Load"+ty] = func(ex *Exec, site ssa.Instruction, args []Value) Value { return ex.load(args[0]) }
+		n["sync/atomic.Store"+ty] = func(ex *Exec, site ssa.Instruction, args []Value) Value {
+			ex.store(args[0], args[1])
+			return nil
+		}
+		n["sync/atomic.Add"+ty] = func(ex *Exec, site ssa.Instruction, args []Value) Value {
+			v := ex.tb().Add(ex.term(ex.load(args[0])), ex.term(args[1]))
+			ex.store(args[0], v)
+			return v
+		}
+		n["sync/atomic.Swap"+ty] = func(ex *Exec, site ssa.Instruction, args []Value) Value {
+			old := ex.load(args[0])
+			ex.store(args[0], args[1])
+			return old
+		}
+		n["sync/atomic.CompareAndSwap"+ty] = func(ex *Exec, site ssa.Instruction, args []Value) Value {
+			if ex.branch(ex.tb().Eq(ex.term(ex.load(args[0])), ex.term(args[1])), nil) {
+				ex.store(args[0], args[2])
+				return ex.tb().True()
+			}
+			return ex.tb().False()
+		}
+	}
+
+	// ---- calls made by package initialisers of the library packages that are executed ----
+	n["internal/godebug.New"] = func(ex *Exec, site ssa.Instruction, args []Value) Value { return Ptr{} }
+	n["time.runtimeNano"] = func(ex *Exec, site ssa.Instruction, args []Value) Value { return ex.tb().ConstI(1, 64) }
+	n["runtime.GOROOT"] = func(ex *Exec, site ssa.Instruction, args []Value) Value { return ex.concStr("/goroot") }
+
 	// ---- sync.Once, sync.Map (single-threaded execution) ----
 	n["(*sync.Once).Do"] = func(ex *Exec, site ssa.Instruction, args []Value) Value {
 		p := args[0].(Ptr)
@@ -256,17 +331,107 @@ func registerNatives2(e *Engine) {
 			return ex.tb().ConstI(int64(f(a, b)), 64)
 		}
 	}
-	n["internal/bytealg.Compare"] = conc2("bytealg.Compare", bytes.Compare)
-	n["internal/bytealg.Index"] = conc2("bytealg.Index", bytes.Index)
-	n["internal/bytealg.IndexString"] = conc2("bytealg.IndexString", bytes.Index)
-	n["internal/bytealg.Count"] = func(ex *Exec, site ssa.Instruction, args []Value) Value {
-		a, ok := concBytes(ex, args[0])
-		c := ex.term(args[1])
-		if !ok || !c.IsConst() {
-			ex.fail("bytealg.Count on symbolic data")
+	n["internal/bytealg.Compare"] = func(ex *Exec, site ssa.Instruction, args []Value) Value {
+		if a, ok1 := concBytes(ex, args[0]); ok1 {
+			if b, ok2 := concBytes(ex, args[1]); ok2 {
+				return ex.tb().ConstI(int64(bytes.Compare(a, b)), 64)
+			}
 		}
-		return ex.tb().ConstI(int64(bytes.Count(a, []byte{byte(c.Uint64())})), 64)
+		return ex.seqCompare(args[0], args[1])
 	}
+	index2 := func(ex *Exec, site ssa.Instruction, args []Value) Value {
+		if a, ok1 := concBytes(ex, args[0]); ok1 {
+			if b, ok2 := concBytes(ex, args[1]); ok2 {
+				return ex.tb().ConstI(int64(bytes.Index(a, b)), 64)
+			}
+		}
+		return ex.seqIndex(args[0], args[1])
+	}
+	_ = conc2
+	n["internal/bytealg.Index"] = index2
+	n["internal/bytealg.IndexString"] = index2
+	n["internal/bytealg.Count"] = func(ex *Exec, site ssa.Instruction, args []Value) Value {
+		tb := ex.tb()
+		c := ex.term(args[1])
+		if a, ok := concBytes(ex, args[0]); ok && c.IsConst() {
+			return tb.ConstI(int64(bytes.Count(a, []byte{byte(c.Uint64())})), 64)
+		}
+		snap, off, ln := ex.seqView(args[0])
+		ub, ok := ex.upperBound(ln)
+		if !ok {
+			ex.fail("bytealg.Count on a sequence of unbounded symbolic length")
+		}
+		sum := ex.c64(0)
+		for i := 0; i < ub; i++ {
+			ci := ex.c64(uint64(i))
+			hit := tb.And(tb.Ult(ci, ln), tb.Eq(ex.readNode(snap, tb.Add(off, ci)), c))
+			sum = tb.Add(sum, tb.Ite(hit, ex.c64(1), ex.c64(0)))
+		}
+		return sum
+	}
+	// ASCII case mapping of symbolic text; text with a byte >= 0x80 maps to an unknown
+	// (but for the same input the same) byte string
+	caseMap := func(lower bool, str bool) NativeFn {
+		return func(ex *Exec, site ssa.Instruction, args []Value) Value {
+			tb := ex.tb()
+			if a, ok := concBytes(ex, args[0]); ok {
+				var out []byte
+				if lower {
+					out = bytes.ToLower(a)
+				} else {
+					out = bytes.ToUpper(a)
+				}
+				if str {
+					if string(out) == string(a) {
+						return args[0]
+					}
+					return ex.concStr(string(out))
+				}
+				return ex.bytesOfConst(out)
+			}
+			snap, off, ln := ex.seqView(args[0])
+			ub, ok := ex.upperBound(ln)
+			if !ok {
+				ex.fail("case mapping of text of unbounded symbolic length")
+			}
+			var ascii []*smt.Term
+			for i := 0; i < ub; i++ {
+				ci := ex.c64(uint64(i))
+				ascii = append(ascii, tb.Or(tb.Ule(ln, ci), tb.Ult(ex.readNode(snap, tb.Add(off, ci)), tb.Const(0x80, 8))))
+			}
+			var bo *ByteObj
+			outLen := ln
+			if ex.branch(tb.And(ascii...), nil) {
+				bo = ex.newByteObjZero(ln)
+				for i := 0; i < ub; i++ {
+					ci := ex.c64(uint64(i))
+					c := ex.readNode(snap, tb.Add(off, ci))
+					var m *smt.Term
+					if lower {
+						m = ex.asciiFold(c)
+					} else {
+						isLow := tb.And(tb.Ule(tb.Const('a', 8), c), tb.Ule(c, tb.Const('z', 8)))
+						m = tb.Ite(isLow, tb.Sub(c, tb.Const(32, 8)), c)
+					}
+					ex.storeByte(bo, ci, tb.Ite(tb.Ult(ci, ln), m, tb.Const(0, 8)))
+				}
+			} else {
+				name := "casemap_" + itoa(snap.id) + "_" + itoa(off.ID) + "_" + itoa(ln.ID)
+				if lower {
+					name += "_lower"
+				}
+				outLen = tb.Sym(name+"#len", smt.BV(64))
+				ex.addPC(tb.Ule(outLen, ex.c64(uint64(4*ub))))
+				bo = ex.newByteObjSym(name, outLen)
+			}
+			if str {
+				return &Str{K: strSeq, Snap: bo.snapshot(), Off: ex.c64(0), Len: outLen}
+			}
+			return Bytes{BO: bo, Off: ex.c64(0), Len: outLen, Cap: outLen}
+		}
+	}
+	n["bytes.ToLower"], n["bytes.ToUpper"] = caseMap(true, false), caseMap(false, false)
+	n["strings.ToLower"], n["strings.ToUpper"] = caseMap(true, true), caseMap(false, true)
 	n["internal/bytealg.CountString"] = n["internal/bytealg.Count"]
 	n["internal/bytealg.MakeNoZero"] = func(ex *Exec, site ssa.Instruction, args []Value) Value {
 		nn := ex.term(args[0])
@@ -297,18 +462,156 @@ func registerNatives2(e *Engine) {
 	}
 }
 
-// hashUF applies the uninterpreted hash function to a byte sequence of fixed length.
+// hashUF applies the model of a hash function to a byte sequence. The model has
+// the shape of the real thing: an initial state, one uninterpreted compression
+// step per 32-byte block (bytes past the end of the message read as zero, blocks
+// past the end are skipped) and an uninterpreted finalisation over the last
+// state and the length. Equal messages therefore have equal digests whatever
+// way they were assembled, for fixed and for symbolic (bounded) lengths alike;
+// nothing else is known about the digests.
 func (ex *Exec) hashUF(name string, size int, data Bytes) Bytes {
-	boxed := &GSlice{Vec: &Vec{Elems: []*Obj{{V: &Iface{Typ: nil, V: data}}}}, Len: 1, Cap: 1}
-	if data.BO == nil {
-		boxed = nil
+	tb := ex.tb()
+	const block = 32
+	stateS := smt.BV(128)
+	lenT := ex.c64(0)
+	ub := 0
+	pinned := true
+	if data.BO != nil {
+		lenT = data.Len
+		if n, ok := ex.pinnedLen(data.Len); ok {
+			ub = n
+			lenT = ex.c64(uint64(n))
+		} else {
+			pinned = false
+			u, ok := ex.upperBound(data.Len)
+			if !ok {
+				ex.fail("hash of a byte sequence whose length is symbolic and not bounded by %d", ex.eng.Cfg.MaxSeqEq)
+			}
+			ub = u
+		}
 	}
-	v := ex.uf(name, smt.BV(8*size), boxed)
+	h := tb.UF(name+"_iv", stateS)
+	for k := 0; k*block < ub; k++ {
+		parts := make([]*smt.Term, block)
+		for j := 0; j < block; j++ {
+			i := k*block + j
+			ci := ex.c64(uint64(i))
+			switch {
+			case i >= ub:
+				parts[j] = tb.Const(0, 8)
+			case pinned:
+				parts[j] = ex.viewByte(data, ci)
+			default:
+				// no use of path facts here: the same message gives the same term at every site
+				parts[j] = tb.Ite(tb.Ult(ci, lenT), ex.viewByte(data, ci), tb.Const(0, 8))
+			}
+		}
+		stepped := tb.UF(name+"_block", stateS, h, tb.ConcatMany(parts))
+		if pinned {
+			h = stepped
+		} else {
+			h = tb.Ite(tb.Ult(ex.c64(uint64(k*block)), lenT), stepped, h)
+		}
+	}
+	v := tb.UF(name+"_final", smt.BV(8*size), h, lenT)
 	bo := ex.newByteObjZero(ex.c64(uint64(size)))
 	for i := 0; i < size; i++ {
-		ex.storeByte(bo, ex.c64(uint64(i)), ex.tb().Extract(v, 8*(size-i)-1, 8*(size-i-1)))
+		ex.storeByte(bo, ex.c64(uint64(i)), tb.Extract(v, 8*(size-i)-1, 8*(size-i-1)))
 	}
 	return Bytes{BO: bo, Off: ex.c64(0), Len: ex.c64(uint64(size)), Cap: ex.c64(uint64(size))}
+}
+
+// seqCompare: lexicographic comparison (-1, 0, 1) of two byte sequences of bounded length.
+func (ex *Exec) seqCompare(av, bv Value) *smt.Term {
+	tb := ex.tb()
+	view := func(v Value) (*logNode, *smt.Term, *smt.Term) {
+		switch x := v.(type) {
+		case Bytes:
+			if x.BO == nil {
+				return nil, ex.c64(0), ex.c64(0)
+			}
+			return x.BO.head, x.Off, x.Len
+		case *Str:
+			sq := ex.strAsSeq(x)
+			return sq.Snap, sq.Off, sq.Len
+		}
+		ex.fail("comparison of %T", v)
+		return nil, nil, nil
+	}
+	as, ao, al := view(av)
+	bs, bo, bl := view(bv)
+	ua, ok1 := ex.upperBound(al)
+	ub, ok2 := ex.upperBound(bl)
+	if !ok1 || !ok2 {
+		ex.fail("bytes.Compare on sequences of unbounded symbolic length")
+	}
+	n := ua
+	if ub < n {
+		n = ub
+	}
+	neg, pos, zero := tb.ConstI(-1, 64), tb.ConstI(1, 64), tb.ConstI(0, 64)
+	lencmp := tb.Ite(tb.Ult(al, bl), neg, tb.Ite(tb.Ult(bl, al), pos, zero))
+	r := lencmp
+	for i := n - 1; i >= 0; i-- {
+		ci := ex.c64(uint64(i))
+		x := ex.readNode(as, tb.Add(ao, ci))
+		y := ex.readNode(bs, tb.Add(bo, ci))
+		in := tb.And(tb.Ult(ci, al), tb.Ult(ci, bl))
+		r = tb.Ite(in, tb.Ite(tb.Eq(x, y), r, tb.Ite(tb.Ult(x, y), neg, pos)), lencmp)
+	}
+	return r
+}
+
+// seqView: snapshot, offset and length of a byte slice or byte-sequence string.
+func (ex *Exec) seqView(v Value) (*logNode, *smt.Term, *smt.Term) {
+	switch x := v.(type) {
+	case Bytes:
+		if x.BO == nil {
+			return ex.newByteObjZero(ex.c64(0)).head, ex.c64(0), ex.c64(0)
+		}
+		return x.BO.head, x.Off, x.Len
+	case *Str:
+		sq := ex.strAsSeq(x)
+		return sq.Snap, sq.Off, sq.Len
+	}
+	ex.fail("byte view of %T", v)
+	return nil, nil, nil
+}
+
+// seqIndex: index of the first occurrence of a needle of fixed length in a sequence of bounded length.
+func (ex *Exec) seqIndex(hv, nv Value) *smt.Term {
+	tb := ex.tb()
+	hs, ho, hl := ex.seqView(hv)
+	ns, no, nl := ex.seqView(nv)
+	m, ok := ex.pinnedLen(nl)
+	if !ok {
+		ex.fail("bytes.Index with a needle of symbolic length")
+	}
+	n, ok := ex.upperBound(hl)
+	if !ok {
+		ex.fail("bytes.Index in a sequence of unbounded symbolic length")
+	}
+	if m == 0 {
+		return ex.c64(0)
+	}
+	if n*m > 1<<16 {
+		ex.fail("bytes.Index: %d x %d comparisons", n, m)
+	}
+	r := tb.ConstI(-1, 64)
+	for i := n - m; i >= 0; i-- {
+		conj := []*smt.Term{tb.Ule(ex.c64(uint64(i+m)), hl)}
+		for j := 0; j < m; j++ {
+			conj = append(conj, tb.Eq(ex.readNode(hs, tb.Add(ho, ex.c64(uint64(i+j)))), ex.readNode(ns, tb.Add(no, ex.c64(uint64(j))))))
+		}
+		r = tb.Ite(tb.And(conj...), ex.c64(uint64(i)), r)
+	}
+	return r
+}
+
+// quickFalse: the arithmetic layer alone refutes c under the path condition.
+func (ex *Exec) quickFalse(c *smt.Term) bool {
+	v, known := ex.quick(c)
+	return known && !v
 }
 
 // fmtInt formats a (possibly symbolic) integer of at most 32 significant bits.
